@@ -3,7 +3,7 @@
 # Confirms a seeded change in the scratch worktree /tmp/wt/<Cxx>: demo passes on the pinned tree,
 # change compiles (with adapter tags), existing suite still passes, demo fails with the change.
 export GOFLAGS=-mod=mod GOPROXY=off GOSUMDB=off GOTOOLCHAIN=local
-id=$1; m=$2; wt=/tmp/wt/$id; out=/tmp/wt/out/$id/$m
+id=$1; m=$2; wt=${WT:-/tmp/wt/$id}; ob=${OUTBASE:-/tmp/wt/out}; out=$ob/$id/$m
 cd $wt || exit 2
 git checkout -q -- . ; git clean -fdq .
 demos=$(ls $out/*_test.go 2>/dev/null)
@@ -27,17 +27,17 @@ tests=${tests#|}
 dirs=$(echo $dirs | tr ' ' '\n' | sort -u | tr '\n' ' ')
 run_demo() { go test -vet=off -count=1 -tags "$tags" -run "^($tests)\$" $dirs 2>&1 | tail -40; return ${PIPESTATUS[0]}; }
 echo "--- demo on pinned tree ($dirs tests=$tests tags=$tags)"
-run_demo > /tmp/wt/out/$id/$m/confirm_base.log; rc1=$?
+run_demo > $out/confirm_base.log; rc1=$?
 git apply $out/patch.diff || { echo "PATCH FAILS TO APPLY"; exit 3; }
 echo "--- build with change"
 (cd server && go build ./... && go build -tags "mysql postgres mongodb rethinkdb" ./...) || { echo "BUILD FAILS"; rcb=1; }
 echo "--- existing suite with change (demo moved aside)"
 mkdir -p /tmp/wt/aside_$id; for d in $demos; do find $wt/server -name $(basename $d) -exec mv {} /tmp/wt/aside_$id/ \; ; done
-(cd server && go test -vet=off -count=1 . ./db/common ./drafty ./ringhash 2>&1 | tail -5) > /tmp/wt/out/$id/$m/confirm_suite.log; rc2=${PIPESTATUS[0]}
-grep -q "^FAIL\|FAIL	" /tmp/wt/out/$id/$m/confirm_suite.log && rc2=1 || rc2=0
+(cd server && go test -vet=off -count=1 . ./db/common ./drafty ./ringhash 2>&1 | tail -5) > $out/confirm_suite.log; rc2=${PIPESTATUS[0]}
+grep -q "^FAIL\|FAIL	" $out/confirm_suite.log && rc2=1 || rc2=0
 for d in $demos; do p=$(grep -m1 '^package ' $d | awk '{print $2}'); p=${p%_test}; dir=${pkgdir[$p]}; hint=$(grep -ho "server/[a-z_/]*/$(basename $d)" $out/notes.md 2>/dev/null | head -1); [ -n "$hint" ] && dir=$(dirname $hint); cp $d $wt/$dir/; done
 echo "--- demo with change"
-run_demo > /tmp/wt/out/$id/$m/confirm_mut.log; rc3=$?
+run_demo > $out/confirm_mut.log; rc3=$?
 git checkout -q -- . ; git clean -fdq . ; rm -rf /tmp/wt/aside_$id
 echo "RESULT $id/$m: demo_on_pinned_rc=$rc1 (want 0) build_fail=${rcb:-0} suite_fail=$rc2 (want 0) demo_with_change_rc=$rc3 (want !=0)"
 if [ $rc1 -eq 0 ] && [ -z "$rcb" ] && [ $rc2 -eq 0 ] && [ $rc3 -ne 0 ]; then echo "CONFIRMED $id/$m"; else echo "NOT CONFIRMED $id/$m"; fi
